@@ -134,6 +134,8 @@ def run_c06(res, tier):
     import moves, jit, iolim, passes, asmtab
     ast = load_ast()
     moves.run_moves(res, ast, rules=("PROBE-DIR", "UNSAFE-TWIN", "WIN-ENTRY"))
+    import bcops
+    bcops.run_bc_fixed(res, ast)      # which mover op (direction, checked/unchecked) the threaded code gets for each Scan/Mov
     jit.run_jit_rules(res, ast, ["PROBE-SEQ", "PROBE-DIR-JIT", "ABI-OFFSETS"])
     res.rule("SAFE-MAP", "execute / execute_limited / execute_unsafe select (limited, safe) = (false,true) / (true,true) / (false,false); "
              "interpreters without unchecked code do not override execute_unsafe", floor=8, what="entry points")
@@ -161,6 +163,8 @@ def run_c10(res, tier):
     import moves, jit, iolim
     ast = load_ast()
     moves.run_moves(res, ast, rules=("UNSAFE-TWIN",))
+    import bcops
+    bcops.run_bc_fixed(res, ast)      # emit(.., safe) picks the unchecked op variants exactly when safe is false
     jit.run_jit_rules(res, ast, ["PROBE-SEQ"])
     res.rule("SAFE-MAP", "execute / execute_limited / execute_unsafe select (limited, safe) = (false,true) / (true,true) / (false,false); "
              "interpreters without unchecked code do not override execute_unsafe", floor=8, what="entry points")
